@@ -124,7 +124,26 @@ pub fn run(ctx: &Ctx, with_reader_side: bool) -> Report {
         let mut r = Rng::derive(ctx.seed, &[tag(engine), t as u64, i as u64]);
         let big = ctx.thorough && i % 499 == 7;
         let c = Cfg::hostile([0.0, 0.2, 1.0][i % 3], if big { 30 } else { ctx.pick(4, 12) }, if big { 300 } else { ctx.pick(5, 40) });
-        let shapes: Vec<Shape> = if i == 0 { vec![] } else { gen::sequence(t, &mut r, &c, 1, if big { 3 } else { ctx.pick(5, 40) }, i as u64) };
+        // dedicated "large" cases: i in 10..10+k for the point types and polylines write
+        // files with a number of records (point types) or a shape with a number of points /
+        // parts (polyline) that straddles a power of two
+        let sizes = gen::threshold_sizes(ctx.thorough);
+        let large: Option<usize> = if i >= 10 && i < 10 + sizes.len() && matches!(t, 1 | 11 | 3 | 25) { Some(sizes[i - 10]) } else { None };
+        let shapes: Vec<Shape> = if i == 0 {
+            vec![]
+        } else if let Some(sz) = large {
+            let small = Cfg::plain(1, 2);
+            match t {
+                1 | 11 => (0..sz).map(|_| gen::shape(t, &mut r, &small)).collect(),
+                3 => vec![gen::shape_exact(t, &mut r, &small, 1, sz), gen::shape_exact(t, &mut r, &small, sz / 2, 2)],
+                _ => vec![gen::shape_exact(t, &mut r, &small, sz / 4, 3), gen::shape_exact(t, &mut r, &small, 2, sz / 3)],
+            }
+        } else {
+            gen::sequence(t, &mut r, &c, 1, if big { 3 } else { ctx.pick(5, 40) }, i as u64)
+        };
+        if large.is_some() {
+            rep.count("large_cases(amounts straddling powers of two)", 1);
+        }
         let nshapes = shapes.len();
         let finalize = i % 2 == 0;
         // every 5th file: an explicit finalize after the k-th shape as well (the file left behind
